@@ -87,7 +87,20 @@ def _model_cache(I, a, k):
     return I.class_attr(cls, '__cache')
 
 
+def _ghost_fill(I, a, k):
+    """fill(arr, lo, hi, v): the array equal to arr except that positions lo <= p < hi hold v (ghost code only)"""
+    arr, lo, hi, v = [I.resolve(x) for x in a]
+    if not isinstance(arr, SArr):
+        raise Unsupported('fill on a non-array ghost')
+    new = z3.Const(I.p.fresh_name('ghost_arr'), arr.arr.sort())
+    q = z3.Int(I.p.fresh_name('q_fill'))
+    tlo, thi, tv = I.term(lo), I.term(hi), I.term(v)
+    I.p.assume(z3.ForAll([q], z3.Select(new, q) == z3.If(z3.And(tlo <= q, q < thi), tv, z3.Select(arr.arr, q))))
+    return SArr(new, arr.n, arr.elem)
+
+
 NATIVE = {
+    'fill': _ghost_fill,
     'model_cache': _model_cache,
     'amount_shaped': _amount_shaped,
     'reparse_timex': _reparse_timex,
@@ -144,5 +157,29 @@ def str_fun(I, name, s, args):
     raise Unsupported(f'str.{name} on symbolic string')
 
 
+_PRED_AT = {}
+_PRED = {}
+_CODE_AT = z3.Function('code_at', z3.StringSort(), z3.IntSort(), z3.IntSort())
+
+
 def str_pred(I, name, s):
-    raise Unsupported(f'str.{name} on symbolic string')
+    """isspace/isdigit/isalpha/...: uninterpreted predicates (DESIGN 4.4); for a character taken from a string by
+    index the predicate is a function of (string, position)"""
+    if isinstance(s, SChar):
+        f = _PRED_AT.get(name)
+        if f is None:
+            f = z3.Function(f'{name}_at', z3.StringSort(), z3.IntSort(), z3.BoolSort())
+            _PRED_AT[name] = f
+        return lib.wrap_bool(f(s.src.t, I.term(s.idx)))
+    f = _PRED.get(name)
+    if f is None:
+        f = z3.Function(f'py_{name}', z3.StringSort(), z3.BoolSort())
+        _PRED[name] = f
+    return lib.wrap_bool(f(I.term(s)))
+
+
+def char_code(I, s):
+    if isinstance(s, SChar):
+        t = _CODE_AT(s.src.t, I.term(s.idx))
+        return Sym(INT, t)
+    return Sym(INT, z3.StrToCode(I.term(s)))
